@@ -53,12 +53,12 @@ func init() { Register(c19{}) }
 func (c19) ID() string       { return "C19" }
 func (c19) New() interface{} { return &C19Case{} }
 func (c19) Rule() string {
-	return "each run: a nucleotide or protein alignment (1-6 rows x 3-30 columns, gaps, ambiguity codes, some lower case, sometimes an ORF) and a history of 2-14 steps over a pool of live objects: 24 query kinds (7 writers, statistics, consensus, entropy, PSSM, count profile, DistMatrix, MLDist, pairwise alignment, LongestORF, unalign, transposition, bootstrap, site conservation, ...), 5 copy-producing kinds whose results join the pool (Clone, CloneSeqBag, SubAlign, SelectSites, Sequence.Clone) and 12 in-place mutation kinds (growing the rows by Concat, SetSequenceChar, ReplaceChar, ReverseComplement, ToLower, ToUpper, Mask, Replace, Mutate, writing through SequenceChar of a cloned Sequence) applied to any pooled object. After every step each object is compared with its snapshot (names, residues, length, alphabet). Distinct = distinct sequence of step kinds; non-trivial = at least one copy was produced and at least one object was mutated after that."
+	return "each run: a nucleotide or protein alignment (1-6 rows x 3-30 columns, gaps, ambiguity codes, some lower case, sometimes an ORF) and a history of 2-14 steps over a pool of live objects: 24 query kinds (7 writers, statistics, consensus, entropy, PSSM, count profile, DistMatrix, MLDist, pairwise alignment, LongestORF, unalign, transposition, bootstrap, site conservation, ...), 6 copy-producing kinds whose results join the pool (Clone, CloneSeqBag, SubAlign, RandSubAlign, SelectSites, Sequence.Clone) and 12 in-place mutation kinds (growing the rows by Concat, SetSequenceChar, ReplaceChar, ReverseComplement, ToLower, ToUpper, Mask, Replace, Mutate, writing through SequenceChar of a cloned Sequence) applied to any pooled object. After every step each object is compared with its snapshot (names, residues, length, alphabet). Distinct = distinct sequence of step kinds; non-trivial = at least one copy was produced and at least one object was mutated after that."
 }
 
 var c19Queries = []string{"write-fasta", "write-phylip", "write-phylip-strict", "write-nexus", "write-clustal", "write-stockholm", "write-paml", "stats", "consensus", "entropy-pssm", "profile",
 	"distmatrix", "mldist", "pwalign", "longest-orf", "unalign", "transpose", "bootstrap", "conservation", "diffs", "mutlist", "string", "translate-copy", "identical", "ref-sites", "split", "phase"}
-var c19Copies = []string{"clone", "clone-seqbag", "sub-align", "select-sites", "seq-clone"}
+var c19Copies = []string{"clone", "clone-seqbag", "sub-align", "select-sites", "seq-clone", "rand-sub-align"}
 var c19Mutations = []string{"revcomp-some", "diff-with-first", "set-char", "replace-char", "revcomp", "to-lower", "to-upper", "mask", "replace", "mutate", "write-through-seq-clone", "grow"}
 
 func (c19) Gen(rs uint64, tier string, race bool) interface{} {
@@ -491,6 +491,22 @@ func (c19) Run(ctx *Ctx, ci interface{}) (o Outcome) {
 				return
 			}
 			produced = &poolObj{what: fmt.Sprintf("sub-alignment [%d,%d) of #%d", st, st+ln, ti), bag: sub, owns: true, parent: ti}
+		case "rand-sub-align":
+			// the random sub-alignment (a window, or distinct columns) is a sub-alignment too
+			if !isAl || n == 0 || L == 0 {
+				applied = false
+				break
+			}
+			{
+				rand.Seed(op.Seed)
+				ln := 1 + op.J%L
+				sub, err := al.RandSubAlign(ln, op.Flag)
+				if err != nil {
+					fail("unexpected-error", "RandSubAlign(%d,%v) of length %d returns %v", ln, op.Flag, L, err)
+					return
+				}
+				produced = &poolObj{what: fmt.Sprintf("random sub-alignment (%d sites, consecutive=%v) of #%d", ln, op.Flag, ti), bag: sub, owns: true, parent: ti}
+			}
 		case "select-sites":
 			if !isAl || n == 0 || L == 0 {
 				applied = false
